@@ -14,7 +14,7 @@ def correspond(ctx, scale=1):
     rng = ctx.rng
     scale *= 4 if ctx.thorough else 1
     cases = countlib.exhaustive_small(46)
-    cases += countlib.seam_cases(rng, 60 * scale) + countlib.shape_cases(rng, 100 * scale) + countlib.layer_cases(rng, 16 * scale)
+    cases += countlib.seam_cases(rng, 60 * scale) + countlib.shape_cases(rng, 100 * scale) + countlib.layer_cases(rng, 16 * scale) + countlib.top_cases(rng, 2 * scale)
     # intervals cutting each member position of dense constellation regions
     for _ in range(60 * scale):
         base = rng.choice([0, 0, 90, 1480, 16050, 19410, 43770, 1006290, 2594940]) + rng.between(0, 40)
